@@ -276,6 +276,7 @@ func (badgerIt *badgerIterator) Seek(id []byte) error {
 	badgerIt.init(true)
 	badgerIt.c.Seek(id)
 	if !badgerIt.c.Valid() {
+		badgerIt.key = nil
 		return fmt.Errorf("Invalid")
 	}
 	k := badgerIt.c.Item().Key()
@@ -288,6 +289,7 @@ func (badgerIt *badgerIterator) SeekReverse(id []byte) error {
 	badgerIt.init(false)
 	badgerIt.c.Seek(id)
 	if !badgerIt.c.Valid() {
+		badgerIt.key = nil
 		return fmt.Errorf("Invalid")
 	}
 	k := badgerIt.c.Item().Key()
